@@ -228,6 +228,7 @@ func c08Call(id string, known map[string]int) (digest string, err error) {
 		return v
 	}
 	var out string
+	var callErr error
 	o := lib.Guard(func() {
 		switch parts[0] {
 		case "D":
@@ -276,11 +277,15 @@ func c08Call(id string, known map[string]int) (digest string, err error) {
 				g, de := fit.Decode(bytes.NewReader(buf.Bytes()))
 				out += "|" + canonContent(g, known) + "|" + lib.ErrText(de)
 				// Encode writes identical bytes for identical Files.
-				var buf2 bytes.Buffer
+				// The second call appends to a buffer that already holds the
+				// first output (a destination with a history of its own).
+				first := append([]byte{}, buf.Bytes()...)
+				buf2 := bytes.NewBuffer(append([]byte{}, first...))
 				f2 := p.files[arg(1)]()
-				e2 := fit.Encode(&buf2, f2, archOrder(arg(2)))
-				if e2 != nil || !bytes.Equal(buf.Bytes(), buf2.Bytes()) {
-					out += "|SECOND-ENCODE-DIFFERS"
+				e2 := fit.Encode(buf2, f2, archOrder(arg(2)))
+				b2 := buf2.Bytes()
+				if e2 != nil || len(b2) != 2*len(first) || !bytes.Equal(b2[:len(first)], first) || !bytes.Equal(b2[len(first):], first) {
+					callErr = fmt.Errorf("Encode of an identical File into a buffer that already holds the first output: error %v, %d bytes appended where the first call wrote %d, or different bytes", e2, len(b2)-len(first), len(first))
 				}
 			}
 		case "EF": // Encode into a writer that fails on its n-th write
@@ -311,6 +316,9 @@ func c08Call(id string, known map[string]int) (digest string, err error) {
 	if o.Panicked || o.Hang {
 		lib.ShadowUnknown()
 		return "", fmt.Errorf("panic: %s", o.Panic)
+	}
+	if callErr != nil {
+		return "", callErr
 	}
 	return h64([]byte(out)), nil
 }
@@ -388,7 +396,7 @@ func C08Sub(args []string) int {
 	case "fresh":
 		d, err := c08Call(args[1], known)
 		if err != nil {
-			fmt.Printf("PANIC %v\n", err)
+			fmt.Printf("FAILED %v\n", err)
 			return 0
 		}
 		fmt.Printf("DIGEST %s\n", d)
@@ -467,7 +475,7 @@ func c08Main(c *lib.Ctx) {
 	c.Count("distinct_calls_with_fresh_process_baseline", int64(len(ids)))
 	for _, id := range ids {
 		if strings.HasPrefix(base[id], "ERROR:") {
-			c.Violation([]byte(id), "call %s made first in a fresh process panicked or crashed: %s", id, base[id])
+			c.Violation([]byte(id), "call %s made first in a fresh process panicked, crashed or failed its own repeat test: %s", id, base[id])
 			return
 		}
 	}
